@@ -24,15 +24,31 @@
 //!          dsec/dusec = this binary's own decoder applied to the file bytes at fo
 //!          | `NEW <variant>` when FixedStructReader::new does not return FileOk
 //!          | `PANIC`
+//!
+//! `c08 fields`
+//!     F <TAB> type <TAB> module::struct <TAB> path:kind:offset:size,...   every field of the struct
+//!       (kind: i/u = signed/unsigned integer, f = f32, c = array of c_char(i8), b = array of u8,
+//!       a<k> = array of signed k-byte integers; offsets by addr_of! on a zeroed instance)
+//!     O <TAB> type <TAB> discriminant     `FixedStructType as usize`
+//!     K <TAB> name <TAB> value            pub constants used by as_bytes / score_fixedstruct
+//!     T <TAB> module <TAB> v,v,...        module::UT_TYPES
+//!     N <TAB> i <TAB> name                UT_TYPE_VAL_TO_STR[i]
+//! `c08 render`  in: type <TAB> hex(entry)            out: `R <hex of as_bytes>` | `F <hex>` (InfoAsBytes::Fail) | `NONE` | `PANIC`
+//! `c08 score`   in: type <TAB> bonus <TAB> hex(entry) out: `S <score>` | `NONE` | `PANIC`
+//! `c08 detect`  in: path <TAB> kind <TAB> blocksz <TAB> T1:b1,T2:b2,... <TAB> repeat
+//!               out: `D <T1>=<score|->,... | <type>:<high_score> x repeat` (FixedStructReader::new run `repeat` times;
+//!               per-candidate scores from FixedStructReader::score_file with a one-element candidate set)
 use chrono::{FixedOffset, TimeZone};
+use std::collections::HashMap;
 use memoffset::span_of;
 use s4lib::common::{FileOffset, FileType, FileTypeArchive, FileTypeFixedStruct, ResultS3};
 use s4lib::data::datetime::DateTimeLOpt;
 use s4lib::data::fixedstruct::{
-    freebsd_x8664, linux_arm64aarch64, linux_x86, netbsd_x8632, netbsd_x8664, openbsd_x86,
-    FixedStructType, InfoAsBytes, ENTRY_SZ_MAX, ENTRY_SZ_MIN, TIMEVAL_SZ_MAX,
+    buffer_to_fixedstructptr, freebsd_x8664, linux_arm64aarch64, linux_x86, netbsd_x8632, netbsd_x8664, openbsd_x86,
+    FixedStruct, FixedStructType, InfoAsBytes, Score, ENTRY_SZ_MAX, ENTRY_SZ_MIN, TIMEVAL_SZ_MAX, UT_TYPE_VAL_TO_STR,
 };
-use s4lib::readers::fixedstructreader::{FixedStructReader, ResultFixedStructReaderNew};
+use s4lib::readers::blockreader::BlockReader;
+use s4lib::readers::fixedstructreader::{FixedStructReader, ResultFixedStructReaderNew, ResultFixedStructReaderScoreFile};
 use s4verif::*;
 
 const ALL: [FixedStructType; 16] = [
@@ -394,6 +410,175 @@ fn run_case(line: &str) -> String {
     out
 }
 
+// ------------------------------------------------------------------ every field of every struct
+trait Kind {
+    fn kind() -> String;
+}
+macro_rules! kind_scalar {
+    ($($t:ty => $k:expr),*) => { $( impl Kind for $t { fn kind() -> String { $k.to_string() } } )* };
+}
+kind_scalar!(i8 => "i", i16 => "i", i32 => "i", i64 => "i", u8 => "u", u16 => "u", u32 => "u", u64 => "u", f32 => "f");
+impl<const N: usize> Kind for [i8; N] {
+    fn kind() -> String { "c".to_string() }
+}
+impl<const N: usize> Kind for [u8; N] {
+    fn kind() -> String { "b".to_string() }
+}
+impl<const N: usize> Kind for [i32; N] {
+    fn kind() -> String { "a4".to_string() }
+}
+fn info<T: Kind>(_p: *const T) -> (usize, String) {
+    (std::mem::size_of::<T>(), T::kind())
+}
+
+macro_rules! flds {
+    ($st:ty; $($($path:ident).+),* $(,)?) => {{
+        let s: $st = unsafe { std::mem::zeroed() };
+        let base = std::ptr::addr_of!(s) as usize;
+        let mut v: Vec<String> = Vec::new();
+        $( {
+            let p = std::ptr::addr_of!(s.$($path).+);
+            let (sz, k) = info(p);
+            v.push(format!("{}:{}:{}:{}", stringify!($($path).+).replace(' ', ""), k, p as usize - base, sz));
+        } )*
+        (stringify!($st).replace(' ', ""), v)
+    }};
+}
+
+fn all_fields(t: FixedStructType) -> (String, Vec<String>) {
+    match t {
+        FixedStructType::Fs_Freebsd_x8664_Utmpx => flds!(freebsd_x8664::utmpx; ut_type, __gap1, ut_tv.tv_sec, ut_tv.tv_usec,
+            ut_id, ut_pid, ut_user, ut_line, ut_host, __ut_spare),
+        FixedStructType::Fs_Linux_Arm64Aarch64_Lastlog => flds!(linux_arm64aarch64::lastlog; ll_time, ll_line, ll_host),
+        FixedStructType::Fs_Linux_Arm64Aarch64_Utmpx => flds!(linux_arm64aarch64::utmpx; ut_type, ut_pid, ut_line, ut_id,
+            ut_user, ut_host, ut_exit, ut_session, ut_tv.tv_sec, ut_tv.tv_usec, ut_addr_v6, __glibc_reserved),
+        FixedStructType::Fs_Linux_x86_Acct => flds!(linux_x86::acct; ac_flag, ac_uid, ac_gid, ac_tty, ac_btime, ac_utime,
+            ac_stime, ac_etime, ac_mem, ac_io, ac_rw, ac_minflt, ac_majflt, ac_swaps, ac_exitcode, ac_comm, ac_pad),
+        FixedStructType::Fs_Linux_x86_Acct_v3 => flds!(linux_x86::acct_v3; ac_flag, ac_version, ac_tty, ac_exitcode, ac_uid,
+            ac_gid, ac_pid, ac_ppid, ac_btime, ac_etime, ac_utime, ac_stime, ac_mem, ac_io, ac_rw, ac_minflt, ac_majflt,
+            ac_swaps, ac_comm),
+        FixedStructType::Fs_Linux_x86_Lastlog => flds!(linux_x86::lastlog; ll_time, ll_line, ll_host),
+        FixedStructType::Fs_Linux_x86_Utmpx => flds!(linux_x86::utmpx; ut_type, ut_pid, ut_line, ut_id, ut_user, ut_host,
+            ut_exit.e_termination, ut_exit.e_exit, ut_session, ut_tv.tv_sec, ut_tv.tv_usec, ut_addr_v6, __glibc_reserved),
+        FixedStructType::Fs_Netbsd_x8632_Acct => flds!(netbsd_x8632::acct; ac_comm, ac_utime, ac_stime, ac_etime, __gap1,
+            ac_btime, ac_uid, ac_gid, ac_mem, ac_io, ac_tty, ac_flag, __gap3),
+        FixedStructType::Fs_Netbsd_x8632_Lastlogx => flds!(netbsd_x8632::lastlogx; ll_tv.tv_sec, ll_tv.tv_usec, ll_line,
+            ll_host, ll_ss),
+        FixedStructType::Fs_Netbsd_x8632_Utmpx => flds!(netbsd_x8632::utmpx; ut_name, ut_id, ut_line, ut_host, ut_session,
+            ut_type, ut_pid, ut_exit.e_termination, ut_exit.e_exit, ut_ss, ut_tv.tv_sec, ut_tv.tv_usec, ut_pad),
+        FixedStructType::Fs_Netbsd_x8664_Lastlog => flds!(netbsd_x8664::lastlog; ll_time, ll_line, ll_host),
+        FixedStructType::Fs_Netbsd_x8664_Lastlogx => flds!(netbsd_x8664::lastlogx; ll_tv.tv_sec, ll_tv.tv_usec, ll_line,
+            ll_host, ll_ss),
+        FixedStructType::Fs_Netbsd_x8664_Utmp => flds!(netbsd_x8664::utmp; ut_line, ut_name, ut_host, ut_time),
+        FixedStructType::Fs_Netbsd_x8664_Utmpx => flds!(netbsd_x8664::utmpx; ut_user, ut_id, ut_line, ut_host, ut_session,
+            ut_type, ut_pid, ut_exit.e_termination, ut_exit.e_exit, __gap1, ut_tv.tv_sec, ut_tv.tv_usec, ut_pad),
+        FixedStructType::Fs_Openbsd_x86_Lastlog => flds!(openbsd_x86::lastlog; ll_time, ll_line, ll_host),
+        FixedStructType::Fs_Openbsd_x86_Utmp => flds!(openbsd_x86::utmp; ut_line, ut_name, ut_host, ut_time),
+    }
+}
+
+fn print_fields() {
+    for t in ALL.iter() {
+        let (st, v) = all_fields(*t);
+        println!("F\t{:?}\t{}\t{}", t, st, v.join(","));
+        // the enum discriminant: score_file tries the candidates in ascending `as usize` order
+        println!("O\t{:?}\t{}", t, *t as usize);
+    }
+    macro_rules! k {
+        ($($m:ident :: $c:ident),*) => { $( println!("K\t{}::{}\t{}", stringify!($m), stringify!($c), ($m::$c as i64) & 0xFF); )* };
+    }
+    k!(linux_x86::AFORK, linux_x86::ASU, linux_x86::ACOMPAT, linux_x86::ACORE, linux_x86::AXSIG, linux_x86::AC_FLAGS_MASK,
+       netbsd_x8632::AFORK, netbsd_x8632::ASU, netbsd_x8632::ACOMPAT, netbsd_x8632::ACORE, netbsd_x8632::AXSIG,
+       netbsd_x8632::AC_FLAGS_MASK);
+    macro_rules! szfo {
+        ($($m:ident :: $c:ident),*) => { $( println!("K\t{}::{}\t{}", stringify!($m), stringify!($c), $m::$c); )* };
+    }
+    szfo!(freebsd_x8664::UTMPX_SZ_FO, linux_arm64aarch64::LASTLOG_SZ_FO, linux_arm64aarch64::UTMPX_SZ_FO,
+          linux_x86::ACCT_SZ_FO, linux_x86::ACCT_V3_SZ_FO, linux_x86::LASTLOG_SZ_FO, linux_x86::UTMPX_SZ_FO,
+          netbsd_x8632::ACCT_SZ_FO, netbsd_x8632::LASTLOGX_SZ_FO, netbsd_x8632::UTMPX_SZ_FO,
+          netbsd_x8664::LASTLOG_SZ_FO, netbsd_x8664::LASTLOGX_SZ_FO, netbsd_x8664::UTMP_SZ_FO, netbsd_x8664::UTMPX_SZ_FO,
+          openbsd_x86::LASTLOG_SZ_FO, openbsd_x86::UTMP_SZ_FO);
+    macro_rules! ut {
+        ($($m:ident),*) => { $( println!("T\t{}\t{}", stringify!($m),
+            $m::UT_TYPES.iter().map(|x| format!("{}", x)).collect::<Vec<_>>().join(",")); )* };
+    }
+    ut!(freebsd_x8664, linux_arm64aarch64, linux_x86, netbsd_x8632, netbsd_x8664);
+    for (i, n) in UT_TYPE_VAL_TO_STR.iter().enumerate() {
+        println!("N\t{}\t{}", i, n);
+    }
+}
+
+fn type_by_name(name: &str) -> Option<FixedStructType> {
+    ALL.iter().copied().find(|t| format!("{:?}", t) == name)
+}
+
+fn render_case(line: &str) -> String {
+    let v: Vec<&str> = line.split('\t').collect();
+    let t = match type_by_name(v[0]) { Some(t) => t, None => return "BADTYPE".into() };
+    let data = unhex(v[1]);
+    let tz = FixedOffset::east_opt(0).unwrap();
+    let fs = match FixedStruct::new(0, &tz, &data, t) { Ok(fs) => fs, Err(_) => return "NONE".into() };
+    let cap: usize = if v.len() > 2 { v[2].parse().unwrap() } else { ENTRY_SZ_MAX * 2 };
+    let mut rb = vec![0u8; cap];
+    match fs.as_bytes(&mut rb) {
+        InfoAsBytes::Ok(n, b, e) => format!("R {} {} {}", hex(&rb[..n]), b, e),
+        InfoAsBytes::Fail(n) => format!("F {}", hex(&rb[..n])),
+    }
+}
+
+fn score_case(line: &str) -> String {
+    let v: Vec<&str> = line.split('\t').collect();
+    let t = match type_by_name(v[0]) { Some(t) => t, None => return "BADTYPE".into() };
+    let bonus: Score = v[1].parse().unwrap();
+    let data = unhex(v[2]);
+    match buffer_to_fixedstructptr(&data, t) {
+        Some(p) => format!("S {}", FixedStruct::score_fixedstruct(&p, bonus)),
+        None => "NONE".into(),
+    }
+}
+
+fn detect_case(line: &str) -> String {
+    let v: Vec<&str> = line.split('\t').collect();
+    let path = v[0].to_string();
+    let ft = FileType::FixedStruct { archival_type: FileTypeArchive::Normal, fixedstruct_type: kind(v[1]) };
+    let bs: u64 = v[2].parse().unwrap();
+    let repeat: usize = if v.len() > 4 { v[4].parse().unwrap() } else { 1 };
+    let mut out = String::from("D");
+    let mut first = true;
+    for c in v[3].split(',').filter(|c| !c.is_empty()) {
+        let mut it = c.split(':');
+        let t = match type_by_name(it.next().unwrap()) { Some(t) => t, None => return "BADTYPE".into() };
+        let bonus: Score = it.next().unwrap().parse().unwrap();
+        let mut br = match BlockReader::new(path.clone(), ft, bs) { Ok(b) => b, Err(e) => return format!("BRERR {}", e) };
+        let mut set: HashMap<FixedStructType, Score> = HashMap::new();
+        set.insert(t, bonus);
+        let sc = match FixedStructReader::score_file(&mut br, false, set) {
+            ResultFixedStructReaderScoreFile::FileOk(t2, s, l) => { assert_eq!(t2, t); format!("{}/{}", s, l.len()) }
+            ResultFixedStructReaderScoreFile::FileErrNoHighScore => "-".to_string(),
+            ResultFixedStructReaderScoreFile::FileErrEmpty => "empty".to_string(),
+            ResultFixedStructReaderScoreFile::FileErrNoValidFixedStruct => "novalid".to_string(),
+            ResultFixedStructReaderScoreFile::FileErrIo(e) => format!("io:{}", e),
+        };
+        out += &format!("{}{:?}={}", if first { " " } else { "," }, t, sc);
+        first = false;
+    }
+    out += " |";
+    let tz = FixedOffset::east_opt(0).unwrap();
+    for _ in 0..repeat {
+        match FixedStructReader::new(path.clone(), ft, bs, tz, None, None) {
+            ResultFixedStructReaderNew::FileOk(r) => {
+                out += &format!(" {:?}:{}", r.fixedstruct_type(), r.summary().fixedstructreader_high_score)
+            }
+            ResultFixedStructReaderNew::FileErrEmpty => out += " FileErrEmpty",
+            ResultFixedStructReaderNew::FileErrTooSmall(_) => out += " FileErrTooSmall",
+            ResultFixedStructReaderNew::FileErrNoValidFixedStruct => out += " FileErrNoValidFixedStruct",
+            ResultFixedStructReaderNew::FileErrNoFixedStructWithinDtFilters => out += " FileErrNoFixedStructWithinDtFilters",
+            ResultFixedStructReaderNew::FileErrIo(_) => out += " FileErrIo",
+        }
+    }
+    out
+}
+
 fn main() {
     let args: Vec<String> = std::env::args().collect();
     if args.len() > 1 && args[1] == "layouts" {
@@ -412,10 +597,20 @@ fn main() {
         println!("C\t{}\t{}\t{}", ENTRY_SZ_MIN, ENTRY_SZ_MAX, TIMEVAL_SZ_MAX);
         return;
     }
+    if args.len() > 1 && args[1] == "fields" {
+        print_fields();
+        return;
+    }
+    let mode: fn(&str) -> String = match args.get(1).map(|s| s.as_str()) {
+        Some("render") => render_case,
+        Some("score") => score_case,
+        Some("detect") => detect_case,
+        _ => run_case,
+    };
     std::panic::set_hook(Box::new(|_| {}));
     for line in stdin_lines() {
         let l = line.clone();
-        match std::panic::catch_unwind(move || run_case(&l)) {
+        match std::panic::catch_unwind(move || mode(&l)) {
             Ok(s) => println!("{}", s),
             Err(_) => println!("PANIC"),
         }
